@@ -1,0 +1,43 @@
+//go:build verif
+
+package gortsplib
+
+import (
+	"context"
+	"io"
+
+	"github.com/bluenviron/gortsplib/v5/internal/asyncprocessor"
+	"github.com/bluenviron/gortsplib/v5/internal/base64streamreader"
+)
+
+// This file exists only when the build tag "verif" is set. It exposes internal packages and
+// unexported functions to the external verification harness; it changes no behaviour.
+
+// VerifAsyncProcessor wraps internal/asyncprocessor.Processor.
+type VerifAsyncProcessor struct {
+	p *asyncprocessor.Processor
+}
+
+// VerifNewAsyncProcessor allocates and initializes a processor.
+func VerifNewAsyncProcessor(bufferSize int, onError func(context.Context, error)) *VerifAsyncProcessor {
+	p := &asyncprocessor.Processor{
+		BufferSize: bufferSize,
+		OnError:    onError,
+	}
+	p.Initialize()
+	return &VerifAsyncProcessor{p: p}
+}
+
+// Start starts the processor.
+func (v *VerifAsyncProcessor) Start() { v.p.Start() }
+
+// Close closes the processor.
+func (v *VerifAsyncProcessor) Close() { v.p.Close() }
+
+// Push pushes a callback.
+func (v *VerifAsyncProcessor) Push(cb func() error) bool { return v.p.Push(cb) }
+
+// VerifNewBase64StreamReader wraps internal/base64streamreader.New.
+func VerifNewBase64StreamReader(r io.Reader) io.Reader {
+	return base64streamreader.New(r)
+}
